@@ -53,6 +53,12 @@ CHECKS = [
   'triplets, mask query true exactly where the transformer changes something, transformer calls dominated by their mask bit and '
   'outMask == NULL, in-place and copying branches apply the same steps in the same order, relative-reference flag. Not decided: '
   'dot-segment removal, idempotence.'),
+ ('C09', 'other', 'static frame (effect) rules over the normaliser call graph + path-sensitive fact flow over dot-segment removal',
+  'Partial, necessary conditions only: the normaliser never writes the absolute-path flag; scheme / authority presence fields are '
+  'cleared only by the revert routine, always followed by a failure return; in relative mode "." and ".." are dropped only under the '
+  'established conditions that keep the target ("./a:b", "../x"); the removal loop does not itself empty a relative host-less path '
+  '(two known findings: "." and "a/.." become the empty reference). Not decided: resolve(normalize(R), B) = normalize(resolve(R, B)) '
+  'for all R, B.'),
  ('C10', 'other', 'static path enumeration: authority predicate coverage and provenance per branch',
   'Partial: the predicate that lets the authority be omitted compares user info, host by kind and port on every "equal" path; '
   'provenance per branch; "./" guard; error codes before allocation. Not decided: that the prefix walk and ".." emission invert '
@@ -90,8 +96,6 @@ CHECKS = [
 ]
 
 NA = [
- ('C09', 'a relation between two operations over all (reference, base) pairs whose truth rests on the dot-segment list algorithm; '
-         'no clause is visible in the shape of the code (DESIGN.md section 4 C09, section 5)'),
  ('C18', 'round trip between two string loops plus an amortised size formula; outside what the static domains here can express '
          '(DESIGN.md section 4 C18)'),
 ]
